@@ -447,6 +447,37 @@ fn run_main(rep: Report) -> i32 {
         });
         running += r4.iter().sum::<u64>();
     }
+    // the running checksum is a function of the input consumed, not of the settings: it must survive
+    // every setter call made while input is pending (no block emitted yet) or after blocks went out
+    if !simd {
+        use miniz_oxide::deflate::core::{compress, CompressorOxide, TDEFLFlush};
+        let data = corpus::shape_named("T", &[(crate::gen::Seg::T, 70_000)]).data;
+        for l1 in [1u8, 4, 6, 9] {
+            for k in [1usize, 100, 5000, 40_000, 70_000] {
+                for l2 in [0u8, 1, 6, 9, 10] {
+                    for setter in 0..3 {
+                        running += 1;
+                        let r = guarded(|| {
+                            let mut c = CompressorOxide::with_params(miniz_oxide::DataFormat::Zlib, l1, miniz_oxide::deflate::core::CompressionStrategy::Default, 15);
+                            let mut out = vec![0u8; 100_000];
+                            let (_, ni, _) = compress(&mut c, &data[..k], &mut out, TDEFLFlush::None);
+                            match setter {
+                                0 => c.set_compression_level_raw(l2),
+                                1 => c.set_format_and_level(miniz_oxide::DataFormat::Zlib, l2),
+                                _ => c.set_compression_level(if l2 >= 9 { miniz_oxide::deflate::CompressionLevel::BestCompression } else if l2 <= 1 { miniz_oxide::deflate::CompressionLevel::BestSpeed } else { miniz_oxide::deflate::CompressionLevel::DefaultLevel }),
+                            }
+                            (c.adler32(), adler32_def(1, &data[..ni]), ni)
+                        });
+                        match r {
+                            Ok((a, want, ni)) if a != want => rep.violation("C16/running-adler/after-setter", format!("CompressorOxide::adler32() = {:#x} right after a level setter (level {} -> {}, setter {}) with {} bytes consumed; Adler-32 of those bytes is {:#x}", a, l1, l2, setter, ni, want), json!({"kind": "setter", "l1": l1, "l2": l2, "k": k, "setter": setter})),
+                            Ok(_) => {}
+                            Err(p) => rep.violation("C16/panic", format!("panic {}", p), json!({"kind": "setter", "l1": l1, "l2": l2, "k": k, "setter": setter})),
+                        }
+                    }
+                }
+            }
+        }
+    }
     // compressor running checksum: the C02 schedule exploration with the Adler monitor reporting
     let mut comp_calls = 0;
     if !simd {
@@ -493,6 +524,7 @@ pub fn replay(v: &Value) -> Option<String> {
                 None
             }
         }
+        "setter" => Some("re-run ./check C16 quick (the setter sweep is deterministic and takes a second)".into()),
         "decoder-bb" => Some("this case needs the block-boundary flavour of the harness: ./check C16 quick re-runs it (same site key, deterministic)".into()),
         "decoder" => {
             let s = unhex(v["stream_hex"].as_str()?);
